@@ -36,6 +36,7 @@ type Ctx struct {
 	presRels    []presRel // assumed "preserved(heap)" relations between heap versions (for light-query instances)
 	entryTyped  map[string]bool
 	fieldOwner  map[string]string // heap key of a struct field -> path of the declaring package ("+path": exported field of an exported type)
+	mtypeKeys   map[string]bool // map heaps (key.value sorts) shared by maps of different Go types in this function
 	etypeSorts  map[string]bool // element sorts shared by slices of different element types in this function
 	qfAlt       map[string]string // define-fun with quantified body -> declare-fun (used by light queries)
 	errConsts   map[string]string
@@ -367,7 +368,16 @@ func (c *Ctx) rangeFact(term string, t types.Type) string {
 			return fmt.Sprintf("(<= (str.len %s) 140737488355328)", term)
 		}
 		return ""
-	case *types.Pointer, *types.Map, *types.Chan, *types.Signature:
+	case *types.Map:
+		id := sanitize(c.sortOf(u.Key())) + "." + sanitize(c.sortOf(u.Elem()))
+		if c.mtypeKeys[id] {
+			// maps of different Go types never are the same object (they share a heap when their key and
+			// value sorts coincide)
+			c.declareFun("map.mtype", []string{"Int"}, "Int")
+			return fmt.Sprintf("(and (>= %[1]s 0) (=> (not (= %[1]s 0)) (= (map.mtype %[1]s) %[2]d)))", term, c.typeID(u))
+		}
+		return fmt.Sprintf("(>= %s 0)", term)
+	case *types.Pointer, *types.Chan, *types.Signature:
 		return fmt.Sprintf("(>= %s 0)", term)
 	case *types.Slice:
 		// arr.etype: the element type of a backing array; slices of different element types never share
